@@ -32,7 +32,7 @@ for pid in ALL:
 
 manifest = {
     "version": 1,
-    "setup_cmd": "cd lean && lake build TickitModel driver",
+    "setup_cmd": "cd lean && lake build TickitModel TickitModel.AllProps driver",
     "hooks": {
         "guard": "TICKIT_VERIF",
         "enable": "no hooks are compiled into /repo: observation uses tickit's own extension points (injected state-interface classes, Device/adapter subclasses, event-loop subclass) and harness-side wrapping of Ticker methods and clock functions at run time",
